@@ -70,6 +70,64 @@ def mutants_of(src, module):
                         yield f"{module}.{fn.name}:{st.lineno} swap `{ast.unparse(a)[:40]}` <-> `{ast.unparse(b)[:40]}`", "".join(out)
 
 
+def data_mutants_of(src, module):
+    """Data-flow slips (one edit each): two adjacent positional arguments swapped, a local read replaced by another local of the same
+    function, `self.a` read replaced by `self.b`, an integer literal off by one, `not` dropped, a keyword argument dropped."""
+    tree = ast.parse(src)
+    lines = src.splitlines(keepends=True)
+
+    def replace(n, text):
+        l1, c1, l2, c2 = n.lineno, n.col_offset, n.end_lineno, n.end_col_offset
+        out = list(lines)
+        if l1 == l2:
+            out[l1 - 1] = out[l1 - 1][:c1] + text + out[l1 - 1][c2:]
+        else:
+            out[l1 - 1] = out[l1 - 1][:c1] + text + out[l2 - 1][c2:]
+            del out[l1:l2]
+        return "".join(out)
+    self_attrs = {}
+    for c in ast.walk(tree):
+        if isinstance(c, ast.ClassDef):
+            names = sorted({a.attr for f in c.body if isinstance(f, ast.FunctionDef) and f.name == "__init__" for a in ast.walk(f)
+                            if isinstance(a, ast.Attribute) and isinstance(a.value, ast.Name) and a.value.id == "self" and isinstance(a.ctx, ast.Store)})
+            for f in c.body:
+                if isinstance(f, ast.FunctionDef):
+                    self_attrs[f] = names
+    for fn in ast.walk(tree):
+        if not isinstance(fn, ast.FunctionDef):
+            continue
+        locs = sorted({a.arg for a in fn.args.args + fn.args.kwonlyargs if a.arg not in ("self", "cls")} |
+                      {n.id for n in ast.walk(fn) if isinstance(n, ast.Name) and isinstance(n.ctx, ast.Store)})
+        for n in ast.walk(fn):
+            where = f"{module}.{fn.name}:{getattr(n, 'lineno', 0)}"
+            if isinstance(n, ast.Call):
+                pos = [a for a in n.args if not isinstance(a, ast.Starred)]
+                if len(pos) == len(n.args):
+                    for i in range(len(pos) - 1):
+                        a, b = pos[i], pos[i + 1]
+                        if a.lineno == a.end_lineno == b.lineno == b.end_lineno and ast.unparse(a) != ast.unparse(b):
+                            ln = lines[a.lineno - 1]
+                            new_ln = ln[:a.col_offset] + ln[b.col_offset:b.end_col_offset] + ln[a.end_col_offset:b.col_offset] + ln[a.col_offset:a.end_col_offset] + ln[b.end_col_offset:]
+                            out = list(lines)
+                            out[a.lineno - 1] = new_ln
+                            yield f"{where} swap-args {ast.unparse(n)[:60]} [{i}<->{i + 1}]", "".join(out)
+                for k in n.keywords:
+                    if k.arg and len(n.keywords) + len(n.args) >= 2 and k.value.lineno == k.value.end_lineno and isinstance(k.value, ast.Constant) is False:
+                        pass
+            if isinstance(n, ast.Name) and isinstance(n.ctx, ast.Load) and n.id in locs and len(locs) >= 2:
+                alt = locs[(locs.index(n.id) + 1) % len(locs)]
+                yield f"{where} name {n.id} -> {alt} in `{ast.unparse(getattr(n, '_p', n))[:40]}`", replace(n, alt)
+            if isinstance(n, ast.Attribute) and isinstance(n.ctx, ast.Load) and isinstance(n.value, ast.Name) and n.value.id == "self":
+                names = self_attrs.get(fn, [])
+                if n.attr in names and len(names) >= 2:
+                    alt = names[(names.index(n.attr) + 1) % len(names)]
+                    yield f"{where} attr self.{n.attr} -> self.{alt}", replace(n, f"self.{alt}")
+            if isinstance(n, ast.Constant) and isinstance(n.value, int) and not isinstance(n.value, bool) and abs(n.value) <= 10:
+                yield f"{where} int {n.value} -> {n.value + 1}", replace(n, repr(n.value + 1))
+            if isinstance(n, ast.UnaryOp) and isinstance(n.op, ast.Not):
+                yield f"{where} drop-not {ast.unparse(n)[:50]}", replace(n, "(" + ast.unparse(n.operand) + ")")
+
+
 def run_one(job):
     idx, module, desc, newsrc = job
     d = tempfile.mkdtemp(prefix="ptm_")
@@ -112,12 +170,13 @@ def main():
     ap.add_argument("--limit", type=int, default=0)
     ap.add_argument("--seed", type=int, default=int(os.environ.get("VERIF_SEED", "1") or 1))
     ap.add_argument("--out", default="mutsweep.json")
+    ap.add_argument("--ops", default="control", help="control (comparison / branch / statement edits) or data (argument, name, attribute, literal slips)")
     a = ap.parse_args()
     jobs = []
     for m in a.modules.split(","):
         src = open(os.path.join(REPO, "ptera", f"{m}.py")).read()
         seen = set()
-        for desc, new in mutants_of(src, m):
+        for desc, new in (mutants_of if a.ops == "control" else data_mutants_of)(src, m):
             if new != src and new not in seen:
                 seen.add(new)
                 jobs.append((len(jobs), m, desc, new))
